@@ -251,15 +251,18 @@ Definition run_old := run_gen false.
 (* ---------- fault stream: STOP while the experiment-state file cannot be written ----------
    AnySource.WriteControl STOP runs the Remove* loop over all channels first and only then WritingState.Stop,
    whose error (the STOP label cannot be written) is returned: whatever the side file does, every channel has
-   lost its writers.  Observed afterwards: the writer handles, how many channel data files are still open,
+   lost its writers.  Observed afterwards: the reported Active flag, the writer handles, how many channel data files are still open,
    and whether a publish of one record to every channel changed any file. *)
-Record faultobs := { fo_writers : list (bool * bool * bool); fo_open : Z; fo_stored : bool }.
+Record faultobs := { fo_writers : list (bool * bool * bool); fo_open : Z; fo_stored : bool;
+                     fo_active : bool (* ComputeWritingState().Active after the faulty STOP *) }.
 
-Definition stop_under_fault (s : st) : st := set_chans s (map remove_all (chans s)).
+(* WritingState.Stop clears Active / Paused / the pattern before it touches any file *)
+Definition stop_under_fault (s : st) : st := set_rs (set_chans s (map remove_all (chans s))) (ws_stop (rs s)).
 
 Definition stores_any (c : chan) : bool :=
   let d := snd (publish_chan c 1) in negb ((fst (fst d) =? 0) && (snd (fst d) =? 0) && (snd d =? 0)).
 
 Definition fault_obs (s : st) : faultobs :=
   let s' := stop_under_fault s in
-  {| fo_writers := map writers_of (chans s'); fo_open := 0; fo_stored := existsb stores_any (chans s') |}.
+  {| fo_writers := map writers_of (chans s'); fo_open := 0; fo_stored := existsb stores_any (chans s');
+     fo_active := active (rs s') |}.
